@@ -328,6 +328,11 @@ def oracle(case, rec, rng_seed=0, deep=True):
     rms = math.sqrt(float((pw ** 2).mean()))
     if abs(rms - g) > 1e-9 + 1e-9 * abs(g):
         return "global value %r is not the root mean square %r of the pointwise values" % (g, rms)
+    # target reflection Y -> -Y (exact in binary64: every quantity only changes sign, so the
+    # model selection of any estimator is unaffected); tight tolerance
+    v = np.ravel(call_measure(case, Y=-np.array(case["Y"])))
+    if v.shape != pw.shape or not np.all(np.abs(v - pw) <= 1e-9 + 1e-7 * np.abs(pw)):
+        return "%s changes under the reflection Y -> -Y of the target space" % case["measure"]
     if not deep:
         return None
     X, Y = np.array(case["X"]), np.array(case["Y"])
